@@ -232,10 +232,12 @@ theorem defaultErrorHandler_serves (a : AppId) (debug : Bool) (src : ErrSrc) (k 
     refine serves_ite ?_ ?_
     · apply errField_serves; intro _
       apply errField_serves; intro _
+      refine Prog.Serves.step _ _ trivial fun _ => ?_
       apply errField_serves; intro _
       apply errField_serves; intro _
       exact hk _
-    · apply errField_serves; intro _
+    · refine Prog.Serves.step _ _ trivial fun _ => ?_
+      apply errField_serves; intro _
       apply errField_serves; intro _
       exact hk _
 
@@ -361,6 +363,19 @@ theorem hop_serves (nest : Req → Prog → Prog) (a : AppId) (cs : List Nat) (o
     · intro ret hret
       apply reqPost_serves a .request rfl; intro _
       exact environGet_serves a .request rfl _ _ fun _ => hret _
+    · intro _
+      exact Prog.Serves.step _ _ trivial fun _ => obsRead_serves a _ _ (hk _)
+  | kwargs => simp only [hop]; exact Prog.Serves.step _ _ trivial fun _ => obsRead_serves a _ _ (hk _)
+  | urlArgs =>
+    simp only [hop]
+    apply cacheIn_serves a .request rfl
+    · intro ret hret; exact hret _
+    · intro _; exact obsRead_serves a _ _ (hk _)
+  | scookie c =>
+    simp only [hop]
+    apply cacheIn_serves a .request rfl
+    · intro ret hret
+      exact envGet_serves a .request rfl _ _ fun _ => hret _
     · intro _
       exact Prog.Serves.step _ _ trivial fun _ => obsRead_serves a _ _ (hk _)
   | url => simp only [hop]; exact reqUrl_serves a .request rfl _ _ fun _ => obsRead_serves a _ _ (hk _)
@@ -536,6 +551,7 @@ theorem serve_serves (fuel : Nat) (a : AppId) (r : Req) (hl : r.LocalTo a) (k : 
         apply hops_serves _ b before hbefore
         apply reqPath_serves b .request rfl; intro _
         apply envGet_serves b .request rfl; intro _
+        refine Prog.Serves.step _ _ trivial fun _ => ?_
         refine Prog.Serves.step _ _ trivial fun _ => ?_
         refine Prog.Serves.step _ _ trivial fun _ => ?_
         refine Prog.Serves.step _ _ trivial fun _ => ?_
